@@ -28,6 +28,8 @@
                 fixed history of registrations (repeated names, reserved names, a menu name) CallNative(name) runs
                 the function of the last accepted registration of that name (reg_spec); the same answers compared
                 with the registry model VmRegistry.v are code 1 (reg_expected),
+              - self-stated expectations of the re-entry corpus: after a successful run every global want_<x> equals
+                got_<x> (the caller's captured / local variables after a re-entrant native returned),
               - no run ends in a Rust panic (VmCheck.panic_code),
           3 / 4 / 5 as in VmCheck; 3 also for a malformed record. *)
 From Coq Require Import String Ascii.
@@ -322,9 +324,39 @@ Definition strip_case (c : vmcase) : vmcase :=
   | c => c
   end.
 
+(* expectations a program states itself: the corpus programs about re-entry store what the property demands of the
+   caller's variables after a host function re-entered the interpreter ("exactly as before the call") into globals
+   want_<x>, and what they read into got_<x>; after a successful run the two must be equal (independent of Vm.v) *)
+Definition pre_want : list N := [119; 97; 110; 116; 95].
+Definition pre_got : list N := [103; 111; 116; 95].
+Fixpoint strip_prefix (p l : list N) : option (list N) :=
+  match p, l with
+  | [], _ => Some l
+  | a :: p', b :: l' => if N.eqb a b then strip_prefix p' l' else None
+  | _ :: _, [] => None
+  end.
+Fixpoint glookup (n : list N) (g : list (list N * option tval)) : option (option tval) :=
+  match g with
+  | [] => None
+  | (m, v) :: r => if list_eqb N.eqb n m then Some v else glookup n r
+  end.
+Definition wants_ok (o : obs) : bool :=
+  match ob_out o with
+  | ObOk =>
+      forallb (fun e => match strip_prefix pre_want (fst e) with
+                        | Some x => match glookup (pre_got ++ x) (ob_globals o) with
+                                    | Some v => opt_eqb tval_eqb v (snd e)
+                                    | None => false
+                                    end
+                        | None => true
+                        end) (ob_globals o)
+  | _ => true
+  end.
+
 Definition oracle (c : vmcase) : list N :=
   match c with
   | VmProg _ mode _ runs =>
+      flat_map (fun r => if wants_ok (snd r) then [] else [2]) runs ++
       flat_map (fun r => if forallb rb1_entry_ok (ob_log (snd r)) then [] else [2]) runs ++
       flat_map (fun r => check_records (match ob_out (snd r) with ObPanic => true | _ => false end) None
                                        (ob_log (snd r))) runs ++
